@@ -150,6 +150,16 @@ def job_dialect(names):
                 exp_kt.append(t.ktype)
         if got_kt != exp_kt:
             acc.violation('keyword-type', {'kind': 'text', 'text': text}, 'keyword types of dialect %s differ from the language table categories' % d)
+        # the same document through a parser / matcher pair that has just been through rejected documents (unknown language among them)
+        text2 = M.render(M.feature('f', scs), M.Layout(dialect=d))[0]       # no header: the dialect is the matcher's default
+        for stop, src, dflt in ((False, text, 'en'), (True, text, 'en'), (False, text2, d), (True, text2, d)):
+            b = I.parse_reused(src, dflt, stop=stop, poison=True)
+            acc.n += 1
+            if b[0] != 'ok' or [s['keywordType'] for ch in b[1]['feature']['children'] for s in ch['scenario']['steps']] != exp_kt:
+                acc.violation('keyword-type', {'kind': 'text', 'text': src, 'route': 'reused', 'stop': stop, 'default': dflt},
+                              'dialect %s: a parser and token matcher that parsed rejected documents before report other keyword types than the language table' % d)
+            else:
+                check_ast(b[1], acc, {'kind': 'ast', 'ast': b[1], 'dialect': d, 'route': 'reused'})
     acc.sample({'family': 'dialect', 'text': (text or '')[:600]})
     return acc
 
@@ -226,6 +236,13 @@ def replay(case):
     acc = Acc()
     if 'ast' in case:
         check_ast(case['ast'], acc, case)
+    elif case.get('route') == 'reused':
+        d = case.get('default', 'en')
+        a = I.parse(case['text'], default=d)
+        b = I.parse_reused(case['text'], d, stop=case.get('stop', False), poison=True)
+        kt = lambda r: [s['keywordType'] for ch in r[1]['feature']['children'] for s in ch['scenario']['steps']] if r[0] == 'ok' else r  # noqa: E731
+        if kt(a) != kt(b):
+            return ['keyword types after a history of rejected documents %r differ from those of fresh instances %r' % (kt(b), kt(a))]
     else:
         a = I.parse(case['text'])
         if a[0] == 'ok':
